@@ -106,7 +106,7 @@ func verifyOne(prog *Program, cs *ContractSet, con *Contract, workDir string, ti
 		// obligations of clauses tagged for other properties only are not part of this check: do not spend solver time on them
 		todo = nil
 		for _, o := range x.obligs {
-			if len(o.Props) == 0 || hasProp(o.Props, gProp) {
+			if len(o.Props) == 0 || hasProp(o.Props, gProp) || (gClosure[x.con.Key] && sameProps(o.Props, x.con.Props)) {
 				todo = append(todo, o)
 			}
 		}
